@@ -4,6 +4,10 @@
 #include "kit.h"
 #include "wide.h"
 
+KIT_C_BEGIN
+sexp sexp_bignum_add_fixnum (sexp ctx, sexp a, sexp b);
+KIT_C_END
+
 #define OP_ADD 1        /* sexp_bignum_add(ctx, dst, a, b)        */
 #define OP_SUB 2        /* sexp_bignum_sub                          */
 #define OP_CMP 3        /* sexp_bignum_compare / compare_abs        */
@@ -51,6 +55,13 @@ void harness(void) {
   wide va = wide_of(a), vb = wide_of(b);
 #ifdef ALIAS
   dst = a;
+  /* the only aliased uses in the tree (sexp_double_to_bignum, Karatsuba recombination) add
+     magnitudes of equal sign, i.e. take the add_digits path */
+#if OP == OP_ADD
+  __CPROVER_assume(sexp_bignum_sign(a) == sexp_bignum_sign(b));
+#else
+  __CPROVER_assume(sexp_bignum_sign(a) != sexp_bignum_sign(b));
+#endif
 #elif defined(DSTK)
   dst = big(DSTK);
 #endif
